@@ -174,8 +174,8 @@ func checkDirection(res *kernel.Result, from, to *rtmpx.End) bool {
 		res.Fail("C01/lost:"+errClass(to.RecvErr), "%s: %d messages written, only %d read, then: %v; first missing %v", name, len(sent), len(to.Recv), to.RecvErr, sent[len(to.Recv)])
 		return false
 	}
-	if to.RecvErr == nil || oe.Cause(to.RecvErr) != io.EOF {
-		res.Fail("C01/end-of-stream-error", "%s: after the writer's clean close the reader ended with %v (root cause should be io.EOF)", name, to.RecvErr)
+	if c := oe.Cause(to.RecvErr); to.RecvErr == nil || (c != io.EOF && c != io.ErrUnexpectedEOF) {
+		res.Fail("C01/end-of-stream-error", "%s: after the writer's clean close the reader ended with %v (root cause should be io.EOF or io.ErrUnexpectedEOF)", name, to.RecvErr)
 		return false
 	}
 	// wire inspection by the reference chunk parser
